@@ -1,12 +1,18 @@
 /-!
-Model of `aioslsk/naming.py` (as repaired by fixes/C09-dot-components.patch and
-fixes/C09-empty-filename.patch), `utils.split_remote_path` (utils.py:29-31),
-`SharesManager.calculate_download_path` (shares/manager.py:774-786) and the
+Model of `aioslsk/naming.py` (as repaired by fixes/C09-dot-components.patch,
+fixes/C09-empty-filename.patch and fixes/C09-dangling-symlink.patch), `utils.split_remote_path`
+(utils.py:29-31), `SharesManager.calculate_download_path` (shares/manager.py:785-797) and the
 "choose a path and claim it" step of `TransferManager._prepare_download_path`
-(transfer/manager.py:677-688 as repaired by fixes/C09-claim-download-path.patch).
+(transfer/manager.py:698-709 as repaired by fixes/C09-claim-download-path.patch and
+fixes/C09-unclaimed-path-kept.patch).
 
 Names are lists of characters, a directory is the list of components *below the download
 directory* (`[]` is the download directory itself). POSIX path semantics (`os.sep = '/'`).
+
+The code applies NO normalisation to a component after the `.`/`..`/empty filter (no strip, no case
+or Unicode folding, no shortening): the model has none either, and `finalPath` below is the very
+string the code hands to the operating system (`os.path.join` of the components). A normalisation
+added later shows up as a disagreement of the correspondence (and of the final-path string).
 -/
 namespace AioslskVerif.Naming
 
@@ -49,8 +55,12 @@ def Fs.has (fs : Fs) (d : Path) (n : Name) : Bool := fs.any (fun e => e.dir == d
 def Fs.dirExists (fs : Fs) (d : Path) : Bool :=
   d.isEmpty || fs.any (fun e => e.isDir && e.dir ++ [e.name] == d)
 
-/-- `os.path.exists(os.path.join(dir, name))`; for `''`, `.` and `..` the path names the directory
-itself (or its parent), which exists iff the directory does. -/
+/-- `DuplicateNamingStrategy.should_be_applied`: `os.path.exists(p) or os.path.islink(p)` for
+`p = os.path.join(dir, name)`, i.e. "the directory has an entry of that name" whatever the entry is
+(a dangling symbolic link is an entry: fixes/C09-dangling-symlink.patch; the driver is handed links as
+non-directory entries). For `''`, `.` and `..` the path names the directory itself (or its parent),
+which exists iff the directory does. A name longer than `NAME_MAX` bytes is never an entry of a real
+directory (`exists` answers False on ENAMETOOLONG). -/
 def Fs.pathExists (fs : Fs) (d : Path) (n : Name) : Bool :=
   if n = [] ∨ n = dot ∨ n = dotdot then fs.dirExists d else fs.has d n
 
@@ -174,62 +184,162 @@ def walk : List Name → Nat → Option Nat
     else if c = dotdot then (match d with | 0 => none | d' + 1 => walk cs d')
     else walk cs (d + 1)
 
-/-! ### concurrent downloads: choose and claim (transfer/manager.py:677-688) -/
+/-! ### the final joined path, as a string, and what the operating system makes of it -/
 
-/-- `os.makedirs(path, exist_ok=True)` for the components `cs` below `base`; `none` = OSError
-(a file is in the way). -/
-def mkdirs (fs : Fs) (base : Path) : List Name → Option Fs
-  | [] => some fs
+/-- `os.path.join(a, b)` (posixpath.join) where `a` is written relative to the download directory
+(`[]` = the download directory itself: an absolute path that does not end in `/`).
+`none`: `b` is absolute — `join` would throw the download directory away. -/
+def osJoin (a : List Char) (b : Name) : Option (List Char) :=
+  if b.head? = some '/' then none
+  else if a.getLast? = some '/' then some (a ++ b) else some (a ++ '/' :: b)
+
+def joinAll : List Char → List Name → Option (List Char)
+  | a, [] => some a
+  | a, c :: cs =>
+    match osJoin a c with
+    | none => none
+    | some a' => joinAll a' cs
+
+/-- `transfer.local_path = os.path.join(download_path, file_path)` (transfer/manager.py:701) where
+`download_path` was built by `os.path.join(local_dir, contained_dir)` (naming.py:61), minus the
+download directory prefix: the string that is opened. -/
+def finalPath (d : Path) (n : Name) : Option (List Char) := joinAll [] (d ++ [n])
+
+/-- the parts of a path string between `/` (empty parts kept); `cur` is the current part, reversed -/
+def splitSlash : List Char → List Char → List Name
+  | [], cur => [cur.reverse]
+  | c :: cs, cur => if c = '/' then cur.reverse :: splitSlash cs [] else splitSlash cs (c :: cur)
+
+/-- path resolution of the kernel / `os.path.normpath` below the download directory (no symbolic
+links): `''` and `.` stay, `..` goes up, anything else goes down. `st` = where we are (innermost
+first). `none`: the walk left the download directory. -/
+def walkUp : List Name → List Name → Option (List Name)
+  | [], st => some st.reverse
+  | c :: cs, st =>
+    if c = [] ∨ c = dot then walkUp cs st
+    else if c = dotdot then (match st with | [] => none | _ :: st' => walkUp cs st')
+    else walkUp cs (c :: st)
+
+/-- where the string `s` (relative to the download directory) leads: the names below the download
+directory, outermost first; `some []` is the download directory itself. -/
+def resolve (s : List Char) : Option (List Name) := walkUp (splitSlash s []) []
+
+/-! ### concurrent downloads: choose and claim (transfer/manager.py:698-709) -/
+
+/-- `NAME_MAX` of the common file systems (ext4, btrfs, xfs, tmpfs, NTFS, APFS), in bytes -/
+def nameMax : Nat := 255
+
+/-- length of `os.fsencode(name)` (UTF-8) -/
+def utf8Len (n : Name) : Nat := n.foldl (fun a c => a + c.utf8Size) 0
+
+/-- creating an entry of that name fails with ENAMETOOLONG -/
+def tooLong (n : Name) : Bool := decide (nameMax < utf8Len n)
+
+/-- `os.makedirs(path, exist_ok=True)` for the components `cs` below `base`: the directory content
+afterwards (the directories made before a failure stay) and whether it succeeded. It fails (OSError)
+when a non-directory is in the way or a component that has to be made is longer than `NAME_MAX`. -/
+def mkdirs (fs : Fs) (base : Path) : List Name → Fs × Bool
+  | [] => (fs, true)
   | c :: cs =>
     match fs.find? (fun e => e.dir == base && e.name == c) with
-    | some e => if e.isDir then mkdirs fs (base ++ [c]) cs else none
-    | none => mkdirs ({ dir := base, name := c, isDir := true } :: fs) (base ++ [c]) cs
+    | some e => if e.isDir then mkdirs fs (base ++ [c]) cs else (fs, false)
+    | none =>
+      if tooLong c then (fs, false)
+      else mkdirs ({ dir := base, name := c, isDir := true } :: fs) (base ++ [c]) cs
 
-/-- `os.makedirs(download_path, exist_ok=True); open(local_path, 'ab').close()` -/
-def claim (fs : Fs) (d : Path) (n : Name) : Option Fs :=
+/-- an OSError injected into the claiming step (EMFILE, ENOSPC, EACCES …) -/
+inductive Fault
+  | none
+  | makedirs   -- `os.makedirs` raises
+  | open       -- the claiming `open(local_path, 'ab')` raises
+deriving DecidableEq, Repr
+
+/-- `os.makedirs(download_path, exist_ok=True); open(local_path, 'ab').close()`
+(transfer/manager.py:705-706): content afterwards, and whether the path is now claimed. -/
+def claim (fs : Fs) (d : Path) (n : Name) (fault : Fault) : Fs × Bool :=
+  if fault = .makedirs then (fs, false) else
   match mkdirs fs [] d with
-  | none => none
-  | some fs' =>
+  | (fs', false) => (fs', false)
+  | (fs', true) =>
+    if fault = .open then (fs', false) else
     match fs'.find? (fun e => e.dir == d && e.name == n) with
-    | some e => if e.isDir then none else some fs'
-    | none => some ({ dir := d, name := n, isDir := false } :: fs')
+    | some e => (fs', !e.isDir)
+    | none => if tooLong n then (fs', false) else ({ dir := d, name := n, isDir := false } :: fs', true)
 
-structure Active where
+/-- what a download that holds a `local_path` is doing -/
+inductive Status
+  | running    -- its `_download_file` task is between "path claimed" and its end
+  | complete   -- all bytes received (COMPLETE); queueing it again forgets the path (state.py:305-310)
+  | broken     -- ended early (INCOMPLETE / FAILED after the claim): the path is kept and resumed
+deriving DecidableEq, Repr
+
+/-- a download that holds a `local_path` -/
+structure Dl where
   id : Nat
   dir : Path
   name : Name
+  status : Status
 deriving DecidableEq, Repr
 
 structure Sys where
   fs : Fs
-  active : List Active
+  dls : List Dl
 deriving Repr
 
 inductive Op
-  | start (id : Nat) (remote : List Char)   -- a download task runs up to its first suspension
-  | finish (id : Nat)                       -- the download ends (the file stays)
+  /-- the `_download_file` task of download `id` runs up to its first suspension (first start, or
+  started again after it ended); `fault`: an OSError hits the claiming step -/
+  | start (id : Nat) (remote : List Char) (fault : Fault)
+  | finish (id : Nat)                       -- the task ends, all bytes received (the file stays)
+  | cut (id : Nat)                          -- the task ends early: connection lost (the file stays)
 deriving Repr
 
 inductive Outcome
   | chosen (d : Path) (n : Name)
+  | resumed (d : Path) (n : Name)
   | refused (e : Err)
   | oserror (d : Path) (n : Name)
   | busy
   | done
 deriving Repr
 
+def Sys.find (s : Sys) (id : Nat) : Option Dl := s.dls.find? (·.id == id)
+
+def Sys.drop (s : Sys) (id : Nat) : List Dl := s.dls.filter (·.id != id)
+
+/-- the download `id`, if its status is `old`, gets status `new` (its path is untouched) -/
+def setStatus (id : Nat) (old new : Status) (dls : List Dl) : List Dl :=
+  dls.map (fun a => if a.id == id && a.status == old then { a with status := new } else a)
+
+/-- `if transfer.local_path is None:` choose and claim; only a claimed path is stored
+(fixes/C09-unclaimed-path-kept.patch). `rest` = the other downloads that hold a path. -/
+def chooseAndClaim (strategies : List Strategy) (fs : Fs) (rest : List Dl) (id : Nat) (remote : List Char)
+    (fault : Fault) : Sys × Outcome :=
+  match chain fs strategies remote with
+  | .error e => ({ fs := fs, dls := rest }, .refused e)
+  | .ok (d, n) =>
+    match claim fs d n fault with
+    | (fs', false) => ({ fs := fs', dls := rest }, .oserror d n)
+    | (fs', true) => ({ fs := fs', dls := { id := id, dir := d, name := n, status := .running } :: rest }, .chosen d n)
+
 def step (strategies : List Strategy) (s : Sys) : Op → Sys × Outcome
-  | .start id remote =>
-    if s.active.any (·.id == id) then (s, .busy) else
-    match chain s.fs strategies remote with
-    | .error e => (s, .refused e)
-    | .ok (d, n) =>
-      match claim s.fs d n with
-      | none => (s, .oserror d n)
-      | some fs' => ({ fs := fs', active := { id := id, dir := d, name := n } :: s.active }, .chosen d n)
-  | .finish id => ({ s with active := s.active.filter (·.id != id) }, .done)
+  | .start id remote fault =>
+    match s.find id with
+    | some a =>
+      match a.status with
+      | .running => (s, .busy)
+      | .broken =>      -- `local_path` is set: no choice, `aiofiles.open(local_path, 'ab')` appends
+        ({ s with dls := setStatus id .broken .running s.dls }, .resumed a.dir a.name)
+      | .complete =>     -- CompleteState.queue(): reset_local_vars(), then as a new download
+        chooseAndClaim strategies s.fs (s.drop id) id remote fault
+    | none => chooseAndClaim strategies s.fs s.dls id remote fault
+  | .finish id => ({ s with dls := setStatus id .running .complete s.dls }, .done)
+  | .cut id => ({ s with dls := setStatus id .running .broken s.dls }, .done)
 
 def run (strategies : List Strategy) (s : Sys) (ops : List Op) : Sys :=
   ops.foldl (fun s op => (step strategies s op).1) s
+
+/-- the downloads whose task is running: "active at the same time" -/
+def Sys.active (s : Sys) : List Dl := s.dls.filter (·.status == .running)
 
 end AioslskVerif.Naming
